@@ -75,6 +75,7 @@ def tree_hash():
         _tree_hash = _hash_paths([
             os.path.join(REPO, "src"), os.path.join(REPO, "Cargo.toml"), os.path.join(REPO, "Cargo.lock"),
             os.path.join(HARNESS, "src"), os.path.join(HARNESS, "p2"), os.path.join(HARNESS, "Cargo.toml"),
+            os.path.join(VERIF, "lib", "p2gen.py"),
         ])
     return _tree_hash
 
